@@ -68,6 +68,7 @@ func main() {
 	// chain declared in the dictionary, and the sweeps across the reader's buffer boundary
 	specials := append(prog.ChainSpecials(), prog.BoundarySpecials(e.Thorough)...)
 	specials = append(specials, prog.LimitSpecials(e.Thorough)...)
+	specials = append(specials, prog.InfoSpecials(e.Thorough)...)
 	tstart := time.Now()
 	for i := 0; i < n+len(specials); i++ {
 		id := fmt.Sprintf("p%d", i)
